@@ -225,6 +225,56 @@ func c09HTTP(r *mc.Report, thorough bool) {
 	p.Done()
 	r.AddSample(map[string]any{"part": "http-unauthenticated", "case": c09Case{"PUT", "/nodes/n1/parents", "hs384-right-key", bodies[4]}})
 
+	// ---- expiry over time: the same token presented before and after it expires (jwt.TimeFunc is the library's clock seam)
+	p = r.Part("http-token-expiry-sequences", "issued tokens presented along a timeline on ONE handler instance: every sequence of 3 instants from {issue, just before expiry, expiry+1 s, expiry+1 day, issue again} x 2 tokens (one presented, one never presented before it expired): 401 exactly at the instants after expiry, whatever was presented before")
+	{
+		auth := inst.Store.GetAuthorizer()
+		tokA, _ := auth.NewToken("userA")
+		tokB, _ := auth.NewToken("userB")
+		issue := time.Now()
+		exp := issue.Add(168 * time.Hour)
+		instants := []struct {
+			name  string
+			t     time.Time
+			valid bool
+		}{{"issue", issue.Add(time.Second), true}, {"just-before-expiry", exp.Add(-2 * time.Second), true}, {"expiry+1s", exp.Add(time.Second), false}, {"expiry+1day", exp.Add(24 * time.Hour), false}, {"back-at-issue", issue.Add(2 * time.Second), true}}
+		defer func() { jwt.TimeFunc = time.Now }()
+		present := func(tok string, at time.Time) int {
+			jwt.TimeFunc = func() time.Time { return at }
+			req := httptest.NewRequest("GET", "http://x/nodes/n1", strings.NewReader(root))
+			req.Header["Authorization"] = []string{"Bearer " + tok}
+			rec := httptest.NewRecorder()
+			handler.ServeHTTP(rec, req)
+			return rec.Code
+		}
+		for i := range instants {
+			for j := range instants {
+				for k := range instants {
+					// a fresh handler+authorizer state cannot be had without a new store; sequences are independent as long as
+					// validity depends only on the instant, which is exactly what is being checked
+					seq := []int{i, j, k}
+					var names []string
+					for _, s := range seq {
+						in := instants[s]
+						names = append(names, in.name)
+						code := present(tokA, in.t)
+						p.Case(true)
+						p.Step(1)
+						if (code != http.StatusUnauthorized) != in.valid {
+							p.Violation("token-validity-depends-on-history", fmt.Sprintf("token presented at %v: at instant %s the request was answered %d (token valid there: %v)", names, in.name, code, in.valid), c09Case{"GET", "/nodes/n1", "issued-jwt@" + strings.Join(names, ","), ""})
+						}
+					}
+					// the control token is only ever presented after its expiry
+					if code := present(tokB, instants[3].t); code != http.StatusUnauthorized {
+						p.Violation("expired-token-served", fmt.Sprintf("a token first presented after its expiry was answered %d", code), c09Case{"GET", "/nodes/n1", "issued-jwt-first-seen-expired", ""})
+					}
+				}
+			}
+		}
+		jwt.TimeFunc = time.Now
+	}
+	p.Done()
+
 	p = r.Part("http-authenticated", "the same methods x paths x bodies with each VALID header (the auth token; issued JWT; issued JWT with extra spaces): never 401")
 	for _, h := range hdrs {
 		if !h.valid {
